@@ -175,7 +175,7 @@ def quick_plan(variants):
     for v in variants:
         scale = 1 if v != "sim" else 4
         plan += [(v, "mix", [4, 60000 // scale]), (v, "ticket", [4, 40000 // scale]), (v, "pticket", [3, 40000 // scale]),
-                 (v, "dectest", [4, 40000 // scale])]
+                 (v, "dectest", [4, 40000 // scale]), (v, "mp", [20000 // scale])]
     return plan
 
 
